@@ -17,34 +17,71 @@ import re
 
 eval_reg = re.compile(r"\beval\s*\(\s*(?P<rule>[^)]*?)\s*\)")
 
+# a string literal of an expression: from a quote to the next quote of the same kind that is not escaped with a
+# backslash (or to the end of the text)
+literal_reg = re.compile(
+    r"\"(?:[^\"\\]|\\[\s\S])*(?:\"|\\?\Z)" r"|'(?:[^'\\]|\\[\s\S])*(?:'|\\?\Z)"
+)
+
+
+def split_literals(s):
+    """splits an expression at its string literals: the items at even positions are the texts outside
+    string literals, the items at odd positions are the literals (with their quotes)."""
+    parts = []
+    pos = 0
+    for match in literal_reg.finditer(s):
+        parts.append(s[pos : match.start()])
+        parts.append(match.group(0))
+        pos = match.end()
+    parts.append(s[pos:])
+    return parts
+
+
+def sub_outside_literals(fn, s):
+    """applies fn to the texts of s outside string literals; the literals are kept as they are."""
+    parts = split_literals(s)
+    parts[::2] = [fn(part) for part in parts[::2]]
+    return "".join(parts)
+
+
+def search_outside_literals(pattern, s):
+    """the first match of pattern in a text of s outside string literals (None if there is none)."""
+    for part in split_literals(s)[::2]:
+        match = re.search(pattern, part)
+        if match is not None:
+            return match
+    return None
+
 
 def escape_assertion(s):
     """escapes the dots in the assertion, because the expression evaluation doesn't support such variable names."""
-    eval_p = re.search(r"\bp(\d*)\.", s)
+    eval_p = search_outside_literals(r"\bp(\d*)\.", s)
     if eval_p is not None:
         p_suffix = eval_p.group(1)
         p_before = re.compile(f"\\bp{p_suffix}\\.")
         p_after = f"p{p_suffix}_"
-        s = re.sub(p_before, p_after, s)
+        s = sub_outside_literals(lambda part: re.sub(p_before, p_after, part), s)
 
-    eval_r = re.search(r"\br(\d*)\.", s)
+    eval_r = search_outside_literals(r"\br(\d*)\.", s)
     if eval_r is not None:
         r_suffix = eval_r.group(1)
         r_before = re.compile(f"\\br{r_suffix}\\.")
         r_after = f"r{r_suffix}_"
-        s = re.sub(r_before, r_after, s)
+        s = sub_outside_literals(lambda part: re.sub(r_before, r_after, part), s)
 
     return s
 
 
 def remove_comments(s):
-    """removes the comments starting with # in the text."""
+    """removes the comments starting with # in the text (a # inside a string literal does not start one)."""
 
-    pos = s.find("#")
-    if pos == -1:
-        return s
+    pos = 0
+    for i, part in enumerate(split_literals(s)):
+        if i % 2 == 0 and "#" in part:
+            return s[0 : pos + part.find("#")].strip()
+        pos += len(part)
 
-    return s[0:pos].strip()
+    return s
 
 
 def array_remove_duplicates(s):
@@ -80,23 +117,17 @@ def set_subtract(a, b):
 
 def has_eval(s):
     """determine whether matcher contains function eval"""
-    return eval_reg.search(s)
+    return search_outside_literals(eval_reg, s)
 
 
 def replace_eval(expr, rules):
     """replace all occurences of function eval with rules"""
-    pos = 0
-    match = eval_reg.search(expr, pos)
-    while match:
-        rule = "(" + rules.pop(0) + ")"
-        expr = expr[: match.start()] + rule + expr[match.end() :]
-        pos = match.start() + len(rule)
-        match = eval_reg.search(expr, pos)
-
-    return expr
+    return sub_outside_literals(lambda part: eval_reg.sub(lambda match: "(" + rules.pop(0) + ")", part), expr)
 
 
 def get_eval_value(s):
     """returns the parameters of function eval"""
-    sub_match = eval_reg.findall(s)
-    return sub_match.copy()
+    sub_match = []
+    for part in split_literals(s)[::2]:
+        sub_match.extend(eval_reg.findall(part))
+    return sub_match
